@@ -353,7 +353,7 @@ pub fn run(tier: Tier) -> BResult {
         }
     }
     let cells2 = cells.clone();
-    let probes = run_cells(cells.len(), 16, Duration::from_secs(10), move |i, e| {
+    let probes = run_cells(cells.len(), 16, Duration::from_secs(30), move |i, e| {
         let (ex, h) = &cells2[i];
         match ex {
             0 => child::<SignalOnly>(h, e),
@@ -418,7 +418,7 @@ pub fn run(tier: Tier) -> BResult {
     let mut a_caps = Vec::new();
     for (name, conc_drop) in [("two_threads_add_same_signal", false), ("two_threads_add_same_signal_instance_dropped", true)] {
         let sc = sched_part::build(name, conc_drop);
-        let cfg = crate::explore::Config { property: "C12".into(), bound: Some(if tier == Tier::Quick { 2 } else { 3 }), max_wall: Duration::from_secs(if tier == Tier::Quick { 25 } else { 300 }), workers: crate::props::workers_for(4), hang_secs: 15 };
+        let cfg = crate::explore::Config { property: "C12".into(), bound: Some(if tier == Tier::Quick { 2 } else { 3 }), max_wall: Duration::from_secs(if tier == Tier::Quick { 25 } else { 300 }), workers: crate::props::workers_for(4), hang_secs: 30 };
         match crate::explore::explore(&sc, &cfg) {
             Ok(sum) => {
                 eprintln!("[C12] schedules {:<44} bound={:?} execs={} states={} steps={} distinct={}{}", name, cfg.bound, sum.stats.executions, sum.stats.states, sum.stats.transitions, sum.stats.digests.len(), if sum.stats.capped { " CAPPED" } else { "" });
